@@ -22,11 +22,25 @@ def port():
     return 56830
 
 
-def script_of(ops, snaps=True):
+def split_gens(ops):
+    """ops may contain ('restart',) markers: the process exits cleanly there and a new one is started on the files.
+    Returns [(base, ops of that generation)], base = number of operations of the history before the generation (its restart marker included)."""
+    gens, cur, base = [], [], 0
+    for i, op in enumerate(ops):
+        if op[0] == 'restart':
+            gens.append((base, cur))
+            cur, base = [], i + 1
+        else:
+            cur.append(op)
+    gens.append((base, cur))
+    return gens
+
+
+def script_of(ops, snaps=True, base=0):
     ls, names = [], []
     if snaps:
-        ls.append('S 0')
-    for j, op in enumerate(ops, 1):
+        ls.append('S %d' % base)
+    for j, op in enumerate(ops, base + 1):
         k = op[0]
         if k == 'create':
             ls.append('C %s' % op[1])
@@ -46,6 +60,9 @@ def script_of(ops, snaps=True):
 def ops_json(ops):
     out = []
     for op in ops:
+        if op[0] == 'restart':
+            out.append(dict(k='restart', name='', c=-1, tok='', n=0))
+            continue
         d = dict(k=op[0], name=op[1], c=-1, tok='', n=0)
         if op[0] in ('register', 'cancel'):
             d['c'], d['tok'] = op[2], op[3]
@@ -55,11 +72,11 @@ def ops_json(ops):
     return out
 
 
-def run_proc(drv, d, prt, script, trace, kill, freq):
-    sp = os.path.join(d, 'script-%s.txt' % abs(hash((tuple(script), kill))))
+def run_proc(drv, d, prt, script, trace, kill, freq, base=0):
+    sp = os.path.join(d, 'script-%s.txt' % abs(hash((tuple(script), kill, base))))
     with open(sp, 'w') as f:
         f.write('\n'.join(script) + '\n')
-    return V.run_driver(drv, [d + '/', str(prt), sp, trace, str(kill), str(freq)], timeout=120)
+    return V.run_driver(drv, [d + '/', str(prt), sp, trace, str(kill), str(freq), str(base)], timeout=120)
 
 
 def histories(tier, rnd):
@@ -68,6 +85,10 @@ def histories(tier, rnd):
     H.append(([('create', 'r1'), ('register', 'r1', 0, 'a1')] + [('change', 'r1', 1)] * 5 + [('create', 'r2'), ('delete', 'r1'), ('register', 'r2', 0, 'c3')], 2))
     H.append(([('create', 'r1'), ('create', 'r2'), ('create', 'r3'), ('delete', 'r2'), ('create', 'r2'), ('register', 'r3', 2, 'd4')] + [('change', 'r3', 1)] * 12, 10))
     H.append(([('create', 'r1'), ('register', 'r1', 0, 'a1'), ('register', 'r1', 1, 'b1'), ('register', 'r1', 0, 'a1'), ('cancel', 'r1', 1, 'b1'), ('change', 'r1', 1), ('change', 'r1', 1)], 1))
+    # several generations: the process is restarted cleanly in between, operations continue on the restored state
+    H.append(([('create', 'r1'), ('register', 'r1', 0, 'a1'), ('change', 'r1', 1), ('restart',), ('cancel', 'r1', 0, 'a1'), ('change', 'r1', 1)], 1))
+    H.append(([('create', 'r1'), ('create', 'r2'), ('register', 'r1', 0, 'a1'), ('register', 'r2', 1, 'b2'), ('restart',), ('change', 'r1', 1), ('delete', 'r2'),
+               ('register', 'r1', 1, 'b1'), ('restart',), ('cancel', 'r1', 0, 'a1'), ('change', 'r1', 1), ('create', 'r3')], 2))
     names = ['r1', 'r2']
     for _ in range(3 if tier == 'quick' else 40):
         ops, have, regs = [], set(), {}
@@ -111,14 +132,19 @@ def run(pid, tier):
     os.makedirs(traces_dir)
     eid = [0]
     infra = []
+    shape = []
 
     def reference(hi):
         ops, freq = H[hi]
         d = os.path.join(scratch, 'ref-%d' % hi)
         os.makedirs(d)
         tr = os.path.join(d, 'trace.ndjson')
-        rc, o = run_proc(drv, d, port(), script_of(ops), tr, 0, freq)
-        snaps, calls = [], None
+        calls = []
+        for (base, gops) in split_gens(ops):
+            rc, o = run_proc(drv, d, port(), script_of(gops, base=base), tr, 0, freq, base)
+            if rc != 0:
+                infra.append('reference run of history %d failed rc=%d: %s' % (hi, rc, o[-1500:]))
+        snaps = []
         for line in open(tr):
             try:
                 e = json.loads(line)
@@ -127,10 +153,11 @@ def run(pid, tier):
             if e.get('e') == 'Snap':
                 snaps.append(dict(j=e['j'], dyn=e['dyn'], obs=e['obs'], cnt=e['cnt']))
             if e.get('e') == 'Finished':
-                calls = e['calls']
-        if rc != 0 or calls is None or len(snaps) < len(ops) + 1:
-            infra.append('reference run of history %d failed rc=%d: %s' % (hi, rc, o[-1500:]))
-        return snaps, calls or 0
+                calls.append(e['calls'])
+        if len(calls) != len(split_gens(ops)) or len(snaps) < len(ops) + 1:
+            infra.append('reference run of history %d incomplete (%d generations finished, %d snapshots)' % (hi, len(calls), len(snaps)))
+            calls = (calls + [0] * 8)[:len(split_gens(ops))]
+        return snaps, calls
     refs = [reference(hi) for hi in range(len(H))]
     if infra:
         # a sanitizer report in the uncrashed run is a finding of the run itself
@@ -138,17 +165,20 @@ def run(pid, tier):
     jobs = []
     for hi, (ops, freq) in enumerate(H):
         snaps, calls = refs[hi]
-        all_names = sorted(set(op[1] for op in ops))
-        kills = list(range(1, calls + 1))
+        all_names = sorted(set(op[1] for op in ops if op[0] != 'restart'))
+        kills = [(g, n) for g, c in enumerate(calls) for n in range(1, c + 1)]
         if tier == 'quick' and len(kills) > 45:
             kills = sorted(rnd.sample(kills, 45))
-        for n in kills:
+        for (g, n) in kills:
             for sign in (1, -1):
                 eid[0] += 1
-                jobs.append((eid[0], hi, sign * n, all_names))
+                jobs.append((eid[0], hi, sign * n, all_names, g))
+        if len(calls) > 1:
+            eid[0] += 1
+            jobs.append((eid[0], hi, 0, all_names, len(calls) - 1))      # no kill at all: every generation ends cleanly, then the query process
 
     def one(job):
-        xid, hi, kill, all_names = job
+        xid, hi, kill, all_names, gen = job
         ops, freq = H[hi]
         snaps, calls = refs[hi]
         d = os.path.join(scratch, 'x-%d' % xid)
@@ -156,23 +186,37 @@ def run(pid, tier):
         tr = os.path.join(traces_dir, 'x-%05d.ndjson' % xid)
         prt = port()
         with open(tr, 'w') as f:
-            f.write(json.dumps(dict(e='Reset', id=xid, hist=hi, kill=kill, ops=ops_json(ops), snaps=snaps)) + '\n')
-        rc, o = run_proc(drv, d, prt, script_of(ops, snaps=False), tr, kill, freq)
-        note = ''
-        if rc != 77:
-            note = 'first process ended rc=%d instead of being killed' % rc
+            f.write(json.dumps(dict(e='Reset', id=xid, hist=hi, kill=kill, gen=gen, ops=ops_json(ops), snaps=snaps)) + '\n')
+        gens = split_gens(ops)
+        note, o = '', ''
+        for g, (base, gops) in enumerate(gens[:gen + 1]):
+            k = kill if g == gen else 0
+            rc, o1 = run_proc(drv, d, prt, script_of(gops, snaps=False, base=base), tr, k, freq, base)
+            o += o1
+            if g == gen and kill != 0 and rc != 77:
+                note = 'process of generation %d ended rc=%d instead of being killed' % (g, rc)
+            if (g < gen or kill == 0) and rc != 0:
+                note = 'process of generation %d ended rc=%d' % (g, rc)
+        if kill == 0:
+            with open(tr, 'a') as f:
+                f.write(json.dumps(dict(e='Killed', call=0, when='clean-exit', fn='-', op=len(ops))) + '\n')
         files = {}
         for fn in ('dyn', 'obs', 'cnt'):
             p = os.path.join(d, fn)
             files[fn] = open(p, 'rb').read().hex() if os.path.exists(p) else '-'
         with open(tr, 'a') as f:
             f.write(json.dumps(dict(e='Files', **files)) + '\n')
-        rc2, o2 = run_proc(drv, d, prt, ['Q ' + ' '.join(all_names), 'N ' + ' '.join(all_names)], tr, 0, freq)
+        rc2, o2 = run_proc(drv, d, prt, ['Q ' + ' '.join(all_names), 'N ' + ' '.join(all_names)], tr, 0, freq, len(ops) + 1)
         reps = V.sanitizer_reports(o) + V.sanitizer_reports(o2)
         if rc2 != 0 or reps:
             with open(tr, 'a') as f:
                 f.write('{"e":"Crash"}\n')
         shutil.rmtree(d, ignore_errors=True)
+        # structural guard against a vacuous validation: every process of the execution announced itself, the last one finished its queries
+        txt = open(tr).read()
+        if txt.count('"e":"Start"') != gen + 2 or not txt.rstrip().endswith('}') or '"e":"Exists"' not in txt:
+            if rc2 == 0 and not reps:
+                shape.append('execution %d: %d Start events for %d processes' % (xid, txt.count('"e":"Start"'), gen + 2))
         return xid, tr, note, (o2[-3000:] if (rc2 != 0 or reps) else '')
     res = []
     with cfu.ThreadPoolExecutor(max_workers=V.NCPU) as ex:
@@ -189,6 +233,8 @@ def run(pid, tier):
             for (_x, tr, _n, _o) in part:
                 f.write(open(tr).read())
         chunks.append(cf)
+    if shape:
+        raise V.Infra('traces do not have the shape the trace specification judges (nothing would be decided): ' + '; '.join(shape[:5]))
     results = V.validate_traces('Trace_Persist', chunks, xmx='3g')
     byid = {j[0]: j for j in jobs}
     vio_out, nexec = [], 0
@@ -207,10 +253,10 @@ def run(pid, tier):
         vio_out.append(('the uncrashed reference run itself failed (sanitizer report or abort): see log', p))
     V.write_evidence(pid, tier, 'model_checking', dict(
         states=mcst['distinct'], transitions=mcst['generated'], traces_validated_against_impl=nexec,
-        samples=[dict(history=H[0][0], save_freq=H[0][1], kill_points=refs[0][1])], histories=len(H), kill_points_executed=len(jobs),
-        stdio_calls_per_history=[c for (_s, c) in refs], exhaustive=(tier == 'thorough'),
+        samples=[dict(history=H[0][0], save_freq=H[0][1], kill_points=sum(refs[0][1]))], histories=len(H), kill_points_executed=len(jobs),
+        stdio_calls_per_history=[sum(c) for (_s, c) in refs], exhaustive=(tier == 'thorough'),
         rule='for each history every index n of a stdio/rename call made by the persistence code is a kill point, once before and once after the call '
-             '(quick: up to 45 sampled indices per history); after the kill the three files must equal the reference content before or after the interrupted '
+             '(quick: up to 45 sampled indices per history), in every generation of histories that restart the process cleanly in between; after the kill the three files must equal the reference content before or after the interrupted '
              'operation, and a restarted process must have the resources / observers of one of those two states and send larger Observe values'),
         time.time() - t0, violations=len(vio_out),
         assumptions=['process kill: data handed to the kernel survives, stdio buffers do not (no power-loss model)', 'fread calls are not kill points'])
